@@ -110,8 +110,12 @@ def range_safe(ctx, mirfn, kind):
     that are small by construction (interval analysis over the syntax tree: literals, enumerate indices over chunk remainders, ..)"""
     from . import rangex
     name = mirfn.get("name")
-    file = mirfn["span"]["file"]
-    if not name or mirfn.get("kind") == "Closure":
+    if mirfn.get("kind") == "Closure" or not name:
+        # a closure is analysed as part of its parent function's syntax tree
+        import re as _re
+        m_ = _re.search(r"::(\w+)::\{closure", mirfn["path"])
+        name = m_.group(1) if m_ else None
+    if not name:
         return False
     key = id(ctx)
     if key not in _AST_FN_CACHE:
@@ -121,11 +125,21 @@ def range_safe(ctx, mirfn, kind):
                 if it["kind"] == "fn":
                     idx.setdefault(it["name"], []).append(it)
                 elif it["kind"] == "impl":
+                    from ..tree import strip_generics
+                    st = strip_generics(it["self_ty"]).split("::")[-1]
                     for x in it["items"]:
                         if x["kind"] == "fn":
                             idx.setdefault(x["name"], []).append(x)
+                            idx.setdefault((st, x["name"]), []).append(x)
         _AST_FN_CACHE[key] = idx
-    cands = _AST_FN_CACHE[key].get(name, [])
+    import re as _re2
+    owner = None
+    mo = _re2.search(r"(\w+)(?:::<[^>]*>)?::%s(?:::\{closure.*)?$" % _re2.escape(name), mirfn["path"])
+    if mo:
+        owner = mo.group(1)
+    cands = _AST_FN_CACHE[key].get((owner, name), []) if owner else []
+    if len(cands) != 1:
+        cands = _AST_FN_CACHE[key].get(name, [])
     if len(cands) != 1:
         return False
     try:
